@@ -323,7 +323,7 @@ def routes_for(fn, with_default=False):
     if fn == 'str_from_latin_1':
         return ['ptr', 'buf', 'cstr']
     if fn in STR_FROM:
-        r = list(STR_ROUTES_MODE) + ['cstr']
+        r = list(STR_ROUTES_MODE) + ['cstr', 'ctorcstr', 'setcstr']
         if fn == 'str_from_utf8':
             r += STR_ROUTES_U8
         return r
@@ -356,7 +356,7 @@ def subs_for(fn):
 
 def ok_for_route(route, units):
     """cstr routes take the length from the terminator: no embedded NUL"""
-    if route in ('cstr', 'assigncstr'):
+    if route in ('cstr', 'assigncstr', 'ctorcstr', 'setcstr'):
         return 0 not in units
     return True
 
@@ -614,6 +614,53 @@ def block_latin1():
             s = [0x41] * n
             s[k] = 0xC0 + (k % 64)
             out.append(s)
+    return out
+
+
+LONG_LENS = (255, 256, 257, 300, 511, 512, 513, 1023, 1024, 1025, 4097)
+
+
+def long_latin1():
+    """Latin-1 byte strings of 255..4097 bytes: uniform runs (a per-lane counter of a word-at-a-time measure wraps
+    at 256 / 65536 equal units) and mixtures"""
+    out = []
+    for n in LONG_LENS:
+        out.append([0xE9] * n)
+        out.append([0x80 + ((i * 37) % 128) for i in range(n)])
+        out.append([0x41] * n)
+        out.append([0xE9 if i % 2 else 0x41 for i in range(n)])
+        out.append([0x41] * (n - 256) + [0xFF] * 256 if n >= 256 else [0xFF] * n)
+    return out
+
+
+def long_scalars():
+    """scalar sequences of 255..4097 characters: uniform runs of each encoded width, and a cycle of all widths"""
+    out = []
+    for n in LONG_LENS:
+        for c in (0x41, 0xE9, 0x20AC, 0x1F600, 0x10FFFF):
+            out.append([c] * n)
+        cyc = [0x41, 0xE9, 0x20AC, 0x1F600, 0x7F, 0x80, 0x7FF, 0x800, 0xFFFF, 0x10000]
+        out.append([cyc[i % len(cyc)] for i in range(n)])
+    return out
+
+
+def long_malformed(kind):
+    """unit sequences of 255..1025 units: uniform runs of one malformed unit / of one well-formed wide character
+    (per-lane counters of a block-wise measure wrap at 256 equal units), and alternations of both"""
+    out = []
+    if kind == '8':
+        bads, goods = ([0x80], [0xC3], [0xF8], [0xFF]), ([0xC3, 0xA9], [0xE2, 0x82, 0xAC], [0xF0, 0x9F, 0x98, 0x80])
+    elif kind == '16':
+        bads, goods = ([0xD800], [0xDC00]), ([0xE9], [0x20AC], [0xD83D, 0xDE00])
+    else:
+        bads, goods = ([0x110000], [0xFFFFFFFF]), ([0xE9], [0x20AC], [0x1F600])
+    for n in (255, 256, 257, 511, 512, 513, 1025):
+        for b in bads:
+            out.append((b * n)[:n])
+            out.append(([0x41] * (n - 1)) + b)
+        for g in goods:
+            out.append(g * n)
+        out.append([x for i in range(n) for x in (bads[i % len(bads)] if i % 3 == 0 else goods[i % len(goods)])])
     return out
 
 
